@@ -49,6 +49,7 @@ type SetModel struct {
 }
 
 type GetArm struct {
+	semantic bool
 	Label string
 	Arm   *ast.CaseClause
 	Tag   BV
@@ -530,7 +531,10 @@ func (p *Pkg) evalSetArm(sm *SetModel, m *Metric, add func(ok bool, rule, label 
 			return nil, nil
 		}
 		if _, ok := call.Args[1].(*ast.CompositeLit); !ok {
-			return nil, nil
+			// a package-level table of the legal values
+			if !p.isPkgLevelOrConst(call.Args[1]) {
+				return nil, nil
+			}
 		}
 		return as, call
 	}
@@ -549,15 +553,19 @@ func (p *Pkg) evalSetArm(sm *SetModel, m *Metric, add func(ok bool, rule, label 
 		if identObj(info, call.Args[0]) != sm.ValParam {
 			add(false, "R07.guard", m.Label, call, "the value handed to validate is not Set's value parameter")
 		}
-		cl := call.Args[1].(*ast.CompositeLit)
-		for _, e := range cl.Elts {
-			s, ok := constString(info, e)
-			if !ok {
-				add(false, "R07.guard", m.Label, e, "non-constant entry in the value list: undecided")
+		lv, err := newCEnv(p, nil).eval(call.Args[1])
+		if err != nil || lv.K != VList {
+			add(false, "R07.guard", m.Label, call.Args[1], "the list of legal values is not a constant table: undecided")
+			undecidedArm = true
+			return
+		}
+		for _, e := range lv.T {
+			if e.K != VStr {
+				add(false, "R07.guard", m.Label, call.Args[1], "non-string entry in the value list: undecided")
 				undecidedArm = true
 				return
 			}
-			m.List = append(m.List, s)
+			m.List = append(m.List, e.S)
 		}
 		codeObj = identObj(info, as.Lhs[0])
 		errObj = identObj(info, as.Lhs[1])
@@ -945,6 +953,7 @@ func (p *Pkg) buildGetModel() *GetModel {
 		add(refuses, "R09.default", "default", gm.Default, map[bool]string{true: "an unknown abbreviation is refused with a non-nil error", false: "an unknown abbreviation is not refused with a provably non-nil error: " + why}[refuses])
 		add(typed, "R18.default", "default", gm.Default, why)
 	}
+	p.getSemanticFill(gm)
 	return gm
 }
 
@@ -982,6 +991,9 @@ func (w *World) rulesLayout(out *[]Obligation) {
 		// label sets of Get and Set agree
 		for _, m := range sm.Metrics {
 			ga := gm.ByLabel[m.Label]
+			if ga != nil && ga.semantic {
+				continue // decided by the semantic model (obligations already in gm.Obls)
+			}
 			inst := fmt.Sprintf("%s.Get[%s]", p.Key, m.Label)
 			if ga == nil {
 				add(false, "R07.decode", inst, m.Arm, "Set knows metric "+m.Label+" but Get has no arm for it")
@@ -1125,4 +1137,172 @@ func (w *World) ruleWriters(p *Pkg, out *[]Obligation) {
 	}
 	*out = append(*out, Obligation{Rule: "R07.writers", Instance: p.Key + ".fields", Pos: p.Key, OK: allUnexp, NonTrivial: true,
 		Detail: map[bool]string{true: fmt.Sprintf("all %d byte fields are unexported", len(p.Fields)), false: "a byte field is exported: clients can write it directly"}[allUnexp]})
+}
+
+// readersTransitive: byte reads under n and in every package function reachable from it.
+func (p *Pkg) readersTransitive(n ast.Node) []Reader {
+	var out []Reader
+	seen := map[*ast.FuncDecl]bool{}
+	var visit func(n ast.Node)
+	visit = func(n ast.Node) {
+		out = append(out, p.readersIn(n)...)
+		ast.Inspect(n, func(x ast.Node) bool {
+			if c, ok := x.(*ast.CallExpr); ok {
+				if fn := calleeOf(p.Info, c); fn != nil && fn.Pkg() == p.P.Types {
+					if d := p.FuncObj[fn]; d != nil && d.Body != nil && !seen[d] {
+						seen[d] = true
+						visit(d.Body)
+					}
+				}
+			}
+			return true
+		})
+	}
+	visit(n)
+	return out
+}
+
+// getSemantic tabulates Get(label) over all codes of the metric and returns the
+// receiver bits the arm (or, without a recognisable arm, the whole function) reads.
+func (p *Pkg) getSemantic(gm *GetModel, m *Metric) (map[int]string, []BitPos, error) {
+	tbl := map[int]string{}
+	for c := range m.List {
+		bytes, err := p.bytesFromCodes(map[string]int{m.Label: c})
+		if err != nil {
+			return nil, nil, err
+		}
+		v, err := newCEnv(p, bytes).callFunc(gm.Fn, []Val{vStr(m.Label)}, gm.Fn)
+		if err != nil {
+			return nil, nil, err
+		}
+		if v.K != VTuple || len(v.T) != 2 || v.T[0].K != VStr || v.T[1].K != VNil {
+			return nil, nil, fmt.Errorf("Get(%s) on code %d returned %s", m.Label, c, v)
+		}
+		tbl[c] = v.T[0].S
+	}
+	var deps []BitPos
+	var scope ast.Node
+	if sw, _ := outerSwitch(p.Info, gm.Fn); sw != nil {
+		for _, cs := range sw.Body.List {
+			cc := cs.(*ast.CaseClause)
+			for _, e := range cc.List {
+				if s, ok := constString(p.Info, e); ok && s == m.Label {
+					scope = cc
+				}
+			}
+		}
+	}
+	if scope != nil {
+		for _, r := range p.readersTransitive(scope) {
+			deps = append(deps, r.Bits...)
+		}
+		return tbl, deps, nil
+	}
+	// no arm to attribute reads to: single-bit sensitivity over every foreign bit and code
+	for f := range p.Fields {
+		for b := 0; b < 8; b++ {
+			pos := BitPos{f, b}
+			if _, own := m.dataBits()[pos]; own {
+				continue
+			}
+			for c := range m.List {
+				bytes, _ := p.bytesFromCodes(map[string]int{m.Label: c})
+				bytes[f] |= 1 << uint(b)
+				v, err := newCEnv(p, bytes).callFunc(gm.Fn, []Val{vStr(m.Label)}, gm.Fn)
+				if err != nil || v.K != VTuple || v.T[0].K != VStr || v.T[0].S != tbl[c] {
+					deps = append(deps, pos)
+					break
+				}
+			}
+		}
+	}
+	return tbl, deps, nil
+}
+
+// getSemanticFill: where the structural model of a Get arm failed (another code
+// shape: lookup tables, accessor helpers, ...) the arm is tabulated with the M7
+// evaluator over all codes of the metric and its byte reads are collected
+// through the functions it calls.
+func (p *Pkg) getSemanticFill(gm *GetModel) {
+	sm := p.SetModel()
+	add := func(ok bool, rule, inst string, n ast.Node, detail string) {
+		gm.Obls = append(gm.Obls, Obligation{Rule: rule, Instance: inst, Pos: p.pos(n), OK: ok, Detail: detail, NonTrivial: true})
+	}
+	for _, m := range sm.Metrics {
+		ga := gm.ByLabel[m.Label]
+		structuralOK := ga != nil && ga.TagOK && len(ga.Table) > 0
+		if structuralOK || !m.encOK {
+			continue
+		}
+		tbl, deps, err := p.getSemantic(gm, m)
+		inst := fmt.Sprintf("%s.Get[%s]", p.Key, m.Label)
+		if err != nil {
+			continue // the structural obligations already explain the failure
+		}
+		kept := gm.Obls[:0]
+		for _, o := range gm.Obls {
+			if o.Instance == inst && !o.OK && (o.Rule == "R07.decode" || o.Rule == "R07.names") {
+				continue
+			}
+			kept = append(kept, o)
+		}
+		gm.Obls = kept
+		if ga == nil {
+			ga = &GetArm{Label: m.Label, Table: map[int]string{}}
+			gm.Arms = append(gm.Arms, ga)
+			gm.ByLabel[m.Label] = ga
+		}
+		ga.Table = tbl
+		ga.semantic = true
+		var foreign []string
+		for _, b := range deps {
+			if o := sm.Owner[b]; o != nil && o != m {
+				foreign = append(foreign, fmt.Sprintf("%s (field of %s)", b, o.Label))
+			}
+		}
+		var at ast.Node = gm.Fn
+		if ga.Arm != nil {
+			at = ga.Arm
+		}
+		if len(foreign) == 0 {
+			add(true, "R07.decode", inst, at, fmt.Sprintf("(semantic model) Get(%s) reads only bits of %s (%d bits read, followed through callees) and was tabulated over all %d codes", m.Label, m.Label, len(deps), len(m.List)))
+		} else {
+			add(false, "R07.decode", inst, at, "Get("+m.Label+") reads bits of other metrics: "+strings.Join(foreign, ", "))
+		}
+		okN := true
+		var whyN []string
+		for c, s := range m.List {
+			if tbl[c] != s {
+				okN = false
+				whyN = append(whyN, fmt.Sprintf("code %d: Set stores it for %q, Get prints %q", c, s, tbl[c]))
+			}
+		}
+		if okN {
+			add(true, "R07.names", inst, at, fmt.Sprintf("(semantic model) codes 0..%d print %v", len(m.List)-1, m.List))
+		} else {
+			add(false, "R07.names", inst, at, strings.Join(whyN, "; "))
+		}
+	}
+	// complaints about the shape of Get as a whole are moot once every metric of Set has
+	// a semantic table: the tabulation ran the whole function, statements outside the switch included
+	allSem := len(sm.Metrics) > 0
+	anySem := false
+	for _, m := range sm.Metrics {
+		ga := gm.ByLabel[m.Label]
+		if ga == nil || len(ga.Table) == 0 {
+			allSem = false
+		} else if ga.semantic {
+			anySem = true
+		}
+	}
+	if allSem && anySem {
+		kept := gm.Obls[:0]
+		for _, o := range gm.Obls {
+			if o.Instance == fmt.Sprintf("%s.Get[*]", p.Key) && !o.OK {
+				continue
+			}
+			kept = append(kept, o)
+		}
+		gm.Obls = kept
+	}
 }
